@@ -45,6 +45,23 @@ Theorem C18_unknown_member_fails :
 Proof. exact unknown_member_fails. Qed.
 Print Assumptions C18_unknown_member_fails.
 
+(* (2b) The type switches of evalExpr / contextualEval: every representation they accept (string,
+        offset string, byte array) reaches the SAME evaluation, every other one is refused; so (1)
+        holds whichever way source text is handed over. *)
+Theorem C18_source_representation_irrelevant :
+  forall q w fuel r1 r2 s, src_arm r1 <> None -> src_arm r2 <> None ->
+  apply q w fuel VEvalValue (VSrc r1 s) = apply q w fuel VEvalValue (VSrc r2 s) /\
+  forall cfg, apply q w fuel (VEvalWith cfg) (VSrc r1 s) = apply q w fuel (VEvalWith cfg) (VSrc r2 s).
+Proof. exact source_representation_irrelevant. Qed.
+Print Assumptions C18_source_representation_irrelevant.
+
+Theorem C18_non_source_refused :
+  forall q w fuel r s, src_arm r = None ->
+  apply q w (S fuel) VEvalValue (VSrc r s) = (Err, []) /\
+  forall cfg, apply q w (S fuel) (VEvalWith cfg) (VSrc r s) = (Err, []).
+Proof. exact non_source_refused. Qed.
+Print Assumptions C18_non_source_refused.
+
 (* (3) What the harness can observe of a result (functions found through tuple attributes,
        closures applied to the probe argument) is within the value's authority: the
        reachability walk of the correspondence under-approximates `auth`. *)
